@@ -420,11 +420,11 @@ Proof.
 Qed.
 
 Theorem run_never_fails fuel x0 joker0 ta r m a sto m' :
-  clock_b x0 = true -> wfs_b i x0 = true -> fresh2_b i x0 = true -> nodep_b x0 = true -> idle_unclaimed_b x0 = true ->
+  clock_b x0 = true -> wfs_b i x0 = true -> fresh2_b i x0 = true -> nodep_b x0 = true ->
   pre_ok_b x0 = true ->
   reach sigma i fuel x0 joker0 ta r m -> mw_step sigma i fuel r m a = MFail sto m' -> False.
 Proof.
-  intros C W Fr Dn Iu Po H Hm. apply NO_iff_clock_b in C.
+  intros C W Fr Dn Po H Hm. pose proof (clock_idle_unclaimed _ C) as Iu. apply NO_iff_clock_b in C.
   destruct (reach_reachG_E sigma i Hnn (J8 i) Q8 side2 OK9 BI (J8_apply sigma i Hnn) (J8_now i) (E8_end i) BI_now (Q8_timed i) (Q8_timed0 i)
               Q9_offer offers_ok9 _ _ _ _ _ _ C (J8_init i _ W Fr Dn Iu Po) (BI_init _ Dn) H) as [_ [HO [xq [Nq [Jq [Bq [Hct [E|[E _]]]]]]]]].
   - subst xq. exact (mw_step_never_fails fuel r m a sto m' Nq Jq Bq Hct HO Hm).
